@@ -1,6 +1,7 @@
 #!/bin/bash
 # tools/seedregress.sh — run every archived seeded change against its property's quick check; all must exit 1.
 cd /verif
+export MUTEST_TRIM=1
 fail=0
 for d in seeded/*/; do
   n=$(basename $d)
